@@ -15,6 +15,10 @@ import shutil
 
 import vlib
 
+# shared machine: at most 6 coqc and 4 cargo jobs at a time (override with VERIF_COQ_JOBS / CARGO_BUILD_JOBS)
+vlib.NCPU = min(vlib.NCPU, int(os.environ.get("VERIF_COQ_JOBS", "6")))
+os.environ.setdefault("CARGO_BUILD_JOBS", "4")
+
 PKG = "h10"
 LIB = "Syntax"
 
@@ -25,7 +29,7 @@ TRUSTED = [
     "new_green width), TokenStream.v (parser.rs token plumbing), tied to /repo's working tree by the "
     "correspondence run only",
     "the cfg(cairo_verif) op-log hook in cairo-lang-parser (/repo commits 7354470 + b48894d, add-only, logging "
-    "only) and harness/h10/src/hook.rs that turns the log into Coq terms",
+    "only; loop-iteration events 83d2696) and harness/h10/src/hook.rs that turns the log into Coq terms",
     "harness/h10: input generators, Coq term printers, the impl-level oracle (tree walk written from the "
     "property text), the F1 signature matcher that labels the known finding; lib/vlib.py",
     "the grammar code of parser.rs (which op comes next, and that every green handed out is placed in the "
@@ -34,7 +38,9 @@ TRUSTED = [
 
 C10_THEOREMS = ["C10_lexer_lossless", "C10_lexer_widths", "C10_widths", "C10_spans",
                 "C10_plumbing_invariant", "C10_file_lossless"]
-C09_THEOREMS = ["C09_lexer_total_progress", "C09_trivia_fuel_sufficient", "C09_diag_in_file"]
+C09_THEOREMS = ["C09_lexer_total_progress", "C09_trivia_fuel_sufficient", "C09_diag_in_file",
+                "C09_recovery_progress", "C09_recovery_stop_sites", "C09_recovery_element_ops",
+                "C09_recovery_entry"]
 
 
 def run_harness(ctx, prop):
@@ -189,7 +195,7 @@ def run(ctx):
                 "(lex_cases / tree_cases in input_distribution) is also evaluated inside Coq against the models.",
         "input_distribution": summary,
         "traces_validated_against_impl": summary.get("lex_cases", 0) + summary.get("tree_cases", 0)
-        + summary.get("oplog_cases", 0),
+        + summary.get("oplog_cases", 0) + summary.get("loops_cases", 0),
         "coq_case_shards": n_shards,
         "correspondence_disagreements": len(corr_bad),
         "oracle_failures_C10": n_mine,
